@@ -54,6 +54,22 @@ def tuple_slice(tuple t, a, b):
 def list_slice(list l, a, b):
     return l[a:b]
 
+def mv_assign(int[:, :] a, int k, int mode):
+    # slice assignments whose source overlaps the destination and/or is broadcast (copied through a temporary buffer)
+    if mode == 0:
+        a[:, :] = a[k:k+1, :]
+    elif mode == 1:
+        a[:, :] = a[k]
+    elif mode == 2:
+        a[1:, :] = a[:-1, :]
+    elif mode == 3:
+        a[:, 1:] = a[:, :-1]
+    elif mode == 4:
+        a[:, :] = a[::-1, :]
+    else:
+        a[:, :] = a[:, k:k+1]
+    return [[a[i, j] for j in range(a.shape[1])] for i in range(a.shape[0])]
+
 def kw_merge(f, d1, d2):
     return f(**d1, **d2)
 
@@ -90,6 +106,18 @@ def model(fn, args):
         return args[0][args[1]:args[2]]
     if fn == "kw_merge":
         return _kwf(**args[1], **args[2])
+    if fn == "mv_assign":
+        r, c, k, mode = args
+        a = [[i * 10 + j for j in range(c)] for i in range(r)]
+        if mode in (0, 1):
+            return [list(a[k]) for _ in range(r)]
+        if mode == 2:
+            return [list(a[0])] + [list(a[i - 1]) for i in range(1, r)]
+        if mode == 3:
+            return [[row[0]] + row[:-1] for row in a]
+        if mode == 4:
+            return [list(x) for x in a[::-1]]
+        return [[row[k]] * c for row in a]
     if fn == "fmt_i":
         return (f"{x:05d}", f"{x:>8d}", f"{x:<6}|", f"{x:x}", f"{x:08X}", f"{x}", f"{x:3}", f"{x:03}", f"{x:012d}", '%5d' % x, '%-6d|' % x, "%05d" % x, "%x" % x, str(x))
     if fn == "fmt_l":
@@ -136,6 +164,10 @@ def cases(seed):
                 out.append(["str_slice", ["abcdef"[:n], a, b]])
                 out.append(["tuple_slice", [vals, a, b]])
                 out.append(["list_slice", [vals, a, b]])
+    for r_, c_ in ((1, 1), (2, 3), (3, 2), (4, 5), (5, 1)):
+        for mode in range(6):
+            for k in range(r_ if mode in (0, 1) else (c_ if mode == 5 else 1)):
+                out.append(["mv_assign", [r_, c_, k, mode]])
     # ** merging of two mappings: duplicate / non-string / mixed keys (pairs; list keys stand for tuples)
     kws = [[["a", 1]], [["a", 2], ["b", 3]], [[1, 2]], [[1, 3], [2, 4]], [[[1, 2], 3]], [[None, 1]], [], [["b", 1], [1, 2]], [[2.5, 1]]]
     for d1 in kws:
@@ -163,6 +195,10 @@ def to_args(fn, args):
         return [tuple(args[0])] + list(args[1:])
     if fn == "kw_merge":
         return [_kwf, _kwdict(args[0]), _kwdict(args[1])]
+    if fn == "mv_assign":
+        r, c, k, mode = args
+        flat = array.array("i", [i * 10 + j for i in range(r) for j in range(c)])
+        return [memoryview(flat).cast("B").cast("i", shape=[r, c]), k, mode]
     return list(args)
 
 
